@@ -109,6 +109,23 @@ class _CutIter:
             ctx.loop_obligations = []
         if self.phase == 0:
             self.phase = 1
+            if getattr(cut, "pre_hook", None):
+                # custom cut (state inside containers): the contract's hook builds the arbitrary prior
+                # state itself; establishment is the contract's business (initially empty containers)
+                if ctx.fork(alg.eq(seq.K, 0)):
+                    self.phase = 2
+                    raise StopIteration
+                j = ctx.fresh("j_" + cut.name, z3.IntSort())
+                ctx.assume(alg.and_(alg.le(0, j), alg.lt(j, seq.K)))
+                self.j = j
+                if not hasattr(ctx, "ghost"):
+                    ctx.ghost = {}
+                ctx.ghost.setdefault("cut_index", {})[cut.name] = j
+                cut.pre_hook(self.frame.f_locals, j)
+                self.state = cut.select_state(self.frame.f_locals)
+                if self.state:
+                    _havoc(ctx, self.state, cut, j, "pre", self._inv)
+                return seq.at(j)
             self.state = cut.select_state(self.frame.f_locals)
             if not self.state and not getattr(cut, "stateless", False):
                 ctx.unsupported_here("loop cut %s: no loop-carried state found" % cut.name)
@@ -133,6 +150,8 @@ class _CutIter:
             return seq.at(j)
         if self.phase == 1:
             self.phase = 2
+            if getattr(cut, "pre_hook", None):
+                self.state = cut.select_state(self.frame.f_locals)
             if getattr(cut, "step", None):
                 # transition obligations: relate the state after one arbitrary iteration to the state before
                 for nm, f in cut.step(self.frame.f_locals, self.j).items():
@@ -142,6 +161,10 @@ class _CutIter:
             j1 = alg.add(self.j, 1)
             if self.state:
                 ctx.loop_obligations.append(("preserve" + (str(self.entry) if self.entry else ""), cut.name, n, lambda i, snap=snap: self._inv(snap, j1, i)))
-            _havoc(ctx, self.state, cut, seq.K, "post", self._inv)
+            if getattr(cut, "post_hook", None):
+                cut.post_hook(self.frame.f_locals)
+                self.state = cut.select_state(self.frame.f_locals)
+            if self.state:
+                _havoc(ctx, self.state, cut, seq.K, "post", self._inv)
             raise StopIteration
         raise StopIteration
